@@ -162,7 +162,7 @@ func checkC08(p *Prog, r *Report) {
 	r.Extra["loop_tasks"] = len(ci.LoopTasks)
 
 	// ---- R8.2 blocking inside the loop is enumerated and ordered -----------------------------
-	r.Rule("R8.2", "Operations that can block indefinitely inside the task loop (channel operations outside a select with default, selects without default, WaitGroup.Wait) occur only at the enumerated sites, each after the action that guarantees the awaited event: the close callback waits for the gatherer only after cancelling it; candidate close waits for its receive loop only after aborting its I/O; the TCP packet conn waits for its readers only after closing every connection and its closed channel.", 3)
+	r.Rule("R8.2", "Operations that can block indefinitely inside the task loop (channel operations outside a select with default, selects without default, WaitGroup.Wait) occur only at the enumerated sites, each after the action that guarantees the awaited event: the close callback waits for the gatherer only after cancelling it; candidate close waits for its receive loop only after aborting its I/O; the TCP packet conn waits for its readers only after closing every connection and its closed channel; a buffered TCP connection waits for its writer only after closing the buffer and the connection that unblock it.", 3)
 	type allowedBlock struct {
 		why   string
 		order func(f *Func, n ast.Node) bool
@@ -182,6 +182,18 @@ func checkC08(p *Prog, r *Report) {
 			// and the mutex is released before waiting
 			unlocked := !p.Locks(f).At(n)["tcpPacketConn.mu"]
 			return closedCh && conns && unlocked
+		}},
+		"bufferedConn.Close|recv|<-$bc.done": {"buffered TCP conn waits for its writer goroutine", func(f *Func, n ast.Node) bool {
+			// the writer is unblocked by closing the buffer it reads from and the connection it writes to
+			buf := p.precededBy(f, n.Pos(), func(c *ast.CallExpr) bool {
+				sel, ok := unparen(c.Fun).(*ast.SelectorExpr)
+				return ok && sel.Sel.Name == "Close" && p.IsField(sel.X, "bufferedConn.buf")
+			})
+			conn := p.precededBy(f, n.Pos(), func(c *ast.CallExpr) bool {
+				sel, ok := unparen(c.Fun).(*ast.SelectorExpr)
+				return ok && sel.Sel.Name == "Close" && p.IsField(sel.X, "bufferedConn.Conn")
+			})
+			return buf && conn
 		}},
 		"TCPMuxDefault.Close|wg.Wait|$m.wg.Wait": {"(only reachable when the application closes the mux from a callback; listed for completeness)", func(f *Func, n ast.Node) bool {
 			return !p.Locks(f).At(n)["TCPMuxDefault.mu"]
